@@ -1,7 +1,8 @@
 """Contracts for kernel/term.py (side-car; read by pyvc through `ast`, importable for replay)."""
 from spec.api import contract, implies, iff, ite
 from spec.terms import (tsize, loose, lift, inst_bound, fv, fv_name, same_var, abstract, abstract_ok,
-                        head_of, nargs_of, args_of, is_app, is_app_any, is_variable, lift_closed)
+                        head_of, nargs_of, args_of, is_app, is_app_any, is_variable, lift_closed,
+                        ty_of, wt, weak_wt, is_fun_ty, fun_ty, bool_ty, rargs_of, rev_Term, rev_rargs, len_args, args_small)
 
 
 @contract("kernel.term.Term.size")
@@ -161,3 +162,96 @@ class abstract_over:
 
     def ensures(self, t, result):
         return is_variable(t) and result == abstract(self, 0, t) and abstract_ok(self, t)
+
+
+@contract("kernel.term.Term.get_type.rec")
+class get_type_rec:
+    params = {'t': 'Term', 'bd_vars': 'seq[Type]'}
+    returns = 'Type'
+    raises = ['TypeCheckException']
+
+    def ensures(t, bd_vars, result):
+        return result == ty_of(t, bd_vars) and weak_wt(t, bd_vars)
+
+    def decreases(t, bd_vars):
+        return t
+
+
+@contract("kernel.term.Term.get_type")
+class get_type:
+    params = {'self': 'Term'}
+    returns = 'Type'
+    raises = ['TypeCheckException']
+
+    def ensures(self, result):
+        return result == ty_of(self, []) and weak_wt(self, [])
+
+
+@contract("kernel.term.Term.checked_get_type.rec")
+class checked_get_type_rec:
+    params = {'t': 'Term', 'bd_vars': 'seq[Type]'}
+    returns = 'Type'
+    raises = ['TypeCheckException']
+
+    def ensures(t, bd_vars, result):
+        return result == ty_of(t, bd_vars) and wt(t, bd_vars)
+
+    def decreases(t, bd_vars):
+        return t
+
+
+@contract("kernel.term.Term.checked_get_type")
+class checked_get_type:
+    params = {'self': 'Term'}
+    returns = 'Type'
+    raises = ['TypeCheckException']
+
+    def ensures(self, result):
+        return result == ty_of(self, []) and wt(self, [])
+
+
+@contract("kernel.term.Term.strip_comb")
+class strip_comb:
+    params = {'self': 'Term'}
+    returns = 'tuple[Term,seq[Term]]'
+    loop_kinds = {0: {'args': 'seq[Term]'}}
+
+    def hint(self):
+        rev_rargs(self)
+
+    def ensures(self, result):
+        return result[0] == head_of(self) and result[1] == args_of(self)
+
+    def invariant0(self, t, args):
+        return head_of(t) == head_of(self) and args + rargs_of(t) == rargs_of(self)
+
+
+@contract("kernel.term.Term.args")
+class args_prop:
+    params = {'self': 'Term'}
+    returns = 'seq[Term]'
+
+    def hint(self):
+        len_args(self)
+        args_small(self)
+
+    def ensures(self, result):
+        return result == args_of(self) and len(result) == nargs_of(self)
+
+    def ensures_small(self, result):
+        return implies(nargs_of(self) == 1, result == [self.arg] and not self.fun.is_comb()) and \
+            implies(nargs_of(self) == 2, result == [self.fun.arg, self.arg] and self.fun.is_comb() and
+                    not self.fun.fun.is_comb()) and \
+            implies(nargs_of(self) == 3, result == [self.fun.fun.arg, self.fun.arg, self.arg])
+
+
+@contract("kernel.term.Term.head")
+class head:
+    params = {'self': 'Term'}
+    returns = 'Term'
+
+    def ensures(self, result):
+        return result == head_of(self)
+
+    def invariant0(self, t):
+        return head_of(t) == head_of(self)
